@@ -2,6 +2,7 @@ import Model
 import Proofs.Walk
 import Proofs.Round
 import Proofs.FrameWalk
+import Proofs.FrameBack
 import Proofs.WFCheck
 /-!
 C06 — reported start and end frame exactly the booked work.
@@ -67,28 +68,34 @@ theorem milestoneDate_is_bound (e : Env) (wf : WF e) (x : Int) (hx : e.start ≤
     unfold Env.time Env.idx at *
     omega
 
-/-! ### end to end (forward mode, single selected resource) -/
+/-! ### end to end (both modes, single selected resource) -/
 
-/-- **C06 for whole projects**: after scheduling ANY well-formed project, for every forward effort task with a single
-    selected resource `r` that is reported as scheduled there are a first slot `fb` and a last slot `last`, both
-    carrying a booking of the task, such that every booking of the task on `r` lies in `[fb, last]`, the reported
-    start lies inside slot `fb` and the reported end inside slot `last` — the interval frames the booked work,
-    slot-exactly. -/
+/-- **C06 for whole projects**: after scheduling ANY well-formed project, for every effort task — forward (ASAP) or backward
+    (ALAP) — with a single selected resource `r` that is reported as scheduled there are a first slot `fb` and a last slot
+    `last`, both carrying a booking of the task, such that every booking of the task on `r` lies in `[fb, last]`, the
+    reported start lies inside slot `fb` and the reported end inside slot `last` (in backward mode: exactly at its end) —
+    the interval frames the booked work, slot-exactly. -/
 theorem start_end_frame_bookings (e : Env) (wf : WF e) (t r : Nat) (hel : Elig e t r)
-    (hs : ((runScenario e).tst t).scheduled = true) (hf : ((runScenario e).tst t).forward = true) :
+    (hs : ((runScenario e).tst t).scheduled = true) :
     ∃ fb last : Int, fb ≤ last ∧
       usageOf ((runScenario e).led.get r fb).usage t ≠ none ∧ usageOf ((runScenario e).led.get r last).usage t ≠ none ∧
       (∀ i, usageOf ((runScenario e).led.get r i).usage t ≠ none → fb ≤ i ∧ i ≤ last) ∧
       (∃ v, ((runScenario e).tst t).start = some v ∧ e.time fb ≤ v ∧ v ≤ e.time (fb + 1)) ∧
       (∃ v, ((runScenario e).tst t).stop = some v ∧ e.time last ≤ v ∧ v ≤ e.time (last + 1)) :=
-  runScenario_framed e wf t r hel (runScenario_scheduled_done e t ⟨hel.leaf, hel.effort, hel.nomile⟩ hs) hf
+  runScenario_framed_all e wf t r hel (runScenario_scheduled_done e t ⟨hel.leaf, hel.effort, hel.nomile⟩ hs)
 
 /-- the same for the environment elaborated from a project description, under the decidable check -/
 theorem start_end_frame_bookings_elab (p : RawProj) (h : wfCheck (elaborate p).env = true) (t r : Nat)
     (hel : Elig (elaborate p).env t r)
-    (hs : ((runScenario (elaborate p).env).tst t).scheduled = true)
-    (hf : ((runScenario (elaborate p).env).tst t).forward = true) :
+    (hs : ((runScenario (elaborate p).env).tst t).scheduled = true) :
     Framed (elaborate p).env (runScenario (elaborate p).env) t r :=
-  start_end_frame_bookings _ (wfCheck_sound _ h) t r hel hs hf
+  start_end_frame_bookings _ (wfCheck_sound _ h) t r hel hs
+
+/-- one task, backward mode: `schedule()` from any state leaves the task framed -/
+theorem task_framed_backward (e : Env) (wf : WF e) (σ : St) (t r : Nat)
+    (hinv : Inv e σ) (hel : Elig e t r) (hb : t < σ.ts.size) (hf : (σ.tst t).forward = false)
+    (hnd : (σ.tst t).done = false) (hclean : ∀ i, usageOf (σ.led.get r i).usage t = none)
+    (hok : (scheduleTask e σ t).2 = true) : Framed e (scheduleTask e σ t).1 t r :=
+  scheduleTask_framed_back e wf σ t r hinv hel hb hf hnd hclean hok
 
 end SP.C06
